@@ -68,7 +68,8 @@ CHECKS = {
         technique="total enumeration of the (operation time, create time, drop time) order types x presence x level cascade x probe answers x operation kind through the real writer, against a reference decision derived from the statement",
         text="The complete decision table - every weak ordering of operation/create/drop time with each time possibly unknown, on every governing level (database, collection, partition), with every downstream probe answer and for every gated operation kind, plus the rejected-call-while-dropped path - is executed on the real ChannelWriter (tables seeded white-box) and the observed applied/skipped/failed outcome is compared with the statement's rule.",
         note="Quick limits the database level to 6 representative states for the two 3-level kinds; thorough enumerates the full product (about 1.6M cases). Stateful create/drop/re-create histories with restarts are not yet explored as sequences (tables are seeded directly).",
-        parts=[part("table", "core", "writer", "TestVerifC08Table", shards=(16, 16), budget=(200, 1500))],
+        parts=[part("table", "core", "writer", "TestVerifC08Table", shards=(16, 16), budget=(200, 1500)),
+               part("histories", "core", "writer", "TestVerifC08Histories", shards=(16, 16), budget=(150, 1200))],
     ),
     "C15": dict(
         level="model_checking", engine="seq",
